@@ -14,6 +14,9 @@ TEARDOWN_MODS = ["self._closed", "self._channel.stream.sock", "self._request_cal
                  "self._local_root", "self._HANDLERS"]
 
 
+from contracts.protocol_core import EXC_CONFIG
+
+
 def register(S):
     S.declare_fields("Connection", _proxy_cache="obj:WeakValueDict", _netref_classes_cache="dict", _remote_root="val",
                      _local_root="val", _HANDLERS="val", _recvlock="obj:Lock", _recv_event="obj:Condition")
@@ -54,16 +57,19 @@ def register(S):
                })
     IO = ["self._send_queue", "self._sendlock.held", SOCK, SOCK + ".outbuf", SOCK + ".inbuf", SOCK + ".shut_attempted",
           SOCK + ".closed", SOCK + ".failed", "self._seqcounter.nxt", "self._local_objects._dict",
-          "self._request_callbacks", "self._closed", "self._last_traceback", "$refcounts"]
+          "self._request_callbacks", "self._closed", "self._last_traceback", "$refcounts", "$sysmodules",
+          "global:rpyc.core.vinegar:_generic_exceptions_cache"]
     ALLMODS = sorted(set(IO + TEARDOWN_MODS))
-    NOSOCK = [m for m in ALLMODS if not m.startswith(SOCK)]
+    # closing never dispatches an incoming message: it cannot touch vinegar's cache or import anything
+    CLOSEMODS = [m for m in ALLMODS if m not in ("$sysmodules", "global:rpyc.core.vinegar:_generic_exceptions_cache")]
+    NOSOCK = [m for m in CLOSEMODS if not m.startswith(SOCK)]
     QUIET = {"self._sendlock.held": "False", "self._send_queue.items": "nil()"}
-    CFG = ["all_slots_ok(self._local_objects._dict) and cache_ok(self._proxy_cache._dict, self)", "haskey(self._config, 'close_catchall')", "haskey(self._config, 'logger')",
+    CFG = ["all_slots_ok(self._local_objects._dict) and cache_ok(self._proxy_cache._dict, self) and generic_cache_ok(module_global('rpyc.core.vinegar', '_generic_exceptions_cache'))", "haskey(self._config, 'close_catchall')", "haskey(self._config, 'logger')",
            # scope: no before_closed hook configured (it fetches the remote root, i.e. serves traffic re-entrantly)
            "not haskey(self._config, 'before_closed') or not truthy(self._config['before_closed'])"]
     S.contract(F + "root", params={"self": "obj:Connection"}, result="val", trusted=True,
                note="ASSUMED (interface): fetches the remote root by a synchronous request (serves traffic meanwhile)",
-               ensures={}, raises={"BaseException": {"props": ["C11"], "modifies": ALLMODS}}, modifies=ALLMODS)
+               ensures={}, raises={"BaseException": {"props": ["C11"], "modifies": CLOSEMODS}}, modifies=CLOSEMODS)
     S.contract(F + "close", params={"self": "obj:Connection"},
                abstract_calls={"self._local_root.on_disconnect": "hook_disconnect"},
                dispatch=[("self._closed", "again"), (SOCK + " is ClosedFile", "first_dead"), (None, "first")],
@@ -86,10 +92,10 @@ def register(S):
                                           "disconnect_hook_exactly_once": (
                                               "n_callees('_cleanup') == 1 and callee_arg('_cleanup', 0, '_anyway') == True", P11)},
                                  raises={"BaseException": {
-                                     "props": P11, "modifies": ALLMODS, "sets": {"self._channel.stream.sock": "ClosedFile"},
+                                     "props": P11, "modifies": CLOSEMODS, "sets": {"self._channel.stream.sock": "ClosedFile"},
                                      # whatever escapes (close_catchall off, or a BaseException), the side is clean
                                      "state": [CLEAN, "n_callees('_cleanup') == 1", "not self._sendlock.held"]}},
-                                 sets={"self._channel.stream.sock": "ClosedFile"}, modifies=ALLMODS),
+                                 sets={"self._channel.stream.sock": "ClosedFile"}, modifies=CLOSEMODS),
                })
     S.contract(F + "closed", params={"self": "obj:Connection"}, inline=True, note="property: self._closed")
     S.contract(F + "_handle_close", params={"self": "obj:Connection"},
@@ -101,16 +107,16 @@ def register(S):
                requires=CFG + ["implies(not self._closed, not isnone(self._local_root) and %s is not ClosedFile and "
                                "not %s.failed)" % (SOCK, SOCK)], init=QUIET,
                ensures={"closes": ("n_callees('close') == 1 and n_events() == 1 and self._closed", P11)},
-               raises={"BaseException": {"props": P11, "modifies": ALLMODS, "state": ["n_callees('close') == 1", "self._closed"],
+               raises={"BaseException": {"props": P11, "modifies": CLOSEMODS, "state": ["n_callees('close') == 1", "self._closed"],
                                          "variants": [{"label": "was closed", "sets": {}},
                                                       {"label": "closed now", "sets": {"self._channel.stream.sock": "ClosedFile"}}]}},
-               modifies=ALLMODS)
+               modifies=CLOSEMODS)
     S.contract(F + "__del__", params={"self": "obj:Connection"},
                requires=CFG + ["implies(not self._closed, not isnone(self._local_root) and %s is not ClosedFile and "
                                "not %s.failed)" % (SOCK, SOCK)], init=QUIET,
                ensures={"closes": ("n_callees('close') == 1 and n_events() == 1", P11)},
-               raises={"BaseException": {"props": P11, "modifies": ALLMODS, "state": ["n_callees('close') == 1"]}},
-               modifies=ALLMODS)
+               raises={"BaseException": {"props": P11, "modifies": CLOSEMODS, "state": ["n_callees('close') == 1"]}},
+               modifies=CLOSEMODS)
 
     # ---- serving -----------------------------------------------------------------------------------------------
     S.declare_fields("Condition", waiters="int")
@@ -133,7 +139,7 @@ def register(S):
                modifies=[], clock=True)
     SERVE_REQ = CFG + ["not self._closed", "not isnone(self._local_root)", "not %s.failed" % SOCK, "not self._recvlock.held",
                        "haskey(self._config, 'propagate_SystemExit_locally')",
-                       "haskey(self._config, 'propagate_KeyboardInterrupt_locally')"]
+                       "haskey(self._config, 'propagate_KeyboardInterrupt_locally')"] + EXC_CONFIG
     MAYBE_DEAD = [{"label": "transport open", "sets": {"self._channel.stream.sock": "old(self._channel.stream.sock)"},
                    "modifies": [m for m in ALLMODS if m not in (SOCK, SOCK + ".shut_attempted", SOCK + ".closed", SOCK + ".failed")]
                    + ["self._recvlock.held"]},
@@ -158,7 +164,7 @@ def register(S):
                         "internal_waiters_woken": ("implies(n_ev('LockTaken') >= 1, n_ev('Notify') >= 1)", ["C11"]),
                         "quiescent_after": ("isnil(self._send_queue.items) and not self._sendlock.held and "
                                             "implies(not self._closed, not isnone(self._local_root)) and "
-                                            "all_slots_ok(self._local_objects._dict) and cache_ok(self._proxy_cache._dict, self)", P11)},
+                                            "all_slots_ok(self._local_objects._dict) and cache_ok(self._proxy_cache._dict, self) and generic_cache_ok(module_global('rpyc.core.vinegar', '_generic_exceptions_cache'))", P11)},
                raises={
                    # end-of-stream or an I/O failure met while receiving: this side becomes closed (hook run, tables
                    # released) BEFORE the error is re-raised
@@ -171,22 +177,22 @@ def register(S):
                                     {"label": "from the dispatched message, connection down",
                                      "sets": {"self._channel.stream.sock": "ClosedFile"},
                                      "state": ["not self._recvlock.held", "n_callees('_dispatch') == 1", "not self._sendlock.held",
-                                               "implies(not self._closed, not isnone(self._local_root))", "all_slots_ok(self._local_objects._dict) and cache_ok(self._proxy_cache._dict, self)"]},
+                                               "implies(not self._closed, not isnone(self._local_root))", "all_slots_ok(self._local_objects._dict) and cache_ok(self._proxy_cache._dict, self) and generic_cache_ok(module_global('rpyc.core.vinegar', '_generic_exceptions_cache'))"]},
                                     {"label": "from the dispatched message", "sets": {"self._channel.stream.sock": "old(self._channel.stream.sock)"},
                                      "modifies": [m for m in ALLMODS if not m.startswith(SOCK)] + [SOCK + ".outbuf", SOCK + ".inbuf", "self._recvlock.held"],
                                      "state": ["not self._recvlock.held", "n_callees('_dispatch') == 1", "not self._sendlock.held",
                                                "implies(not self._closed, not isnone(self._local_root))",
-                                               "all_slots_ok(self._local_objects._dict) and cache_ok(self._proxy_cache._dict, self)"]}]},
+                                               "all_slots_ok(self._local_objects._dict) and cache_ok(self._proxy_cache._dict, self) and generic_cache_ok(module_global('rpyc.core.vinegar', '_generic_exceptions_cache'))"]}]},
                    "BaseException": {"props": P11, "variants": MAYBE_DEAD, "state": [
                        "not self._recvlock.held", "not self._sendlock.held", "implies(n_ev('LockTaken') >= 1, n_ev('Notify') >= 1)",
-                       "implies(not self._closed, not isnone(self._local_root))", "all_slots_ok(self._local_objects._dict) and cache_ok(self._proxy_cache._dict, self)"]}},
+                       "implies(not self._closed, not isnone(self._local_root))", "all_slots_ok(self._local_objects._dict)", "cache_ok(self._proxy_cache._dict, self)", "generic_cache_ok(module_global('rpyc.core.vinegar', '_generic_exceptions_cache'))"]}},
                modifies=[m for m in ALLMODS if m not in (SOCK, SOCK + ".shut_attempted", SOCK + ".closed", SOCK + ".failed")] + ["self._recvlock.held"])
 
     # serve_all: closed on EVERY exit path
     S.contract(F + "serve_all", params={"self": "obj:Connection"}, init=QUIET, clock=True,
                requires=CFG + ["implies(not self._closed, not isnone(self._local_root))", "not %s.failed" % SOCK,
                                "not self._recvlock.held", "haskey(self._config, 'propagate_SystemExit_locally')",
-                               "haskey(self._config, 'propagate_KeyboardInterrupt_locally')"],
+                               "haskey(self._config, 'propagate_KeyboardInterrupt_locally')"] + EXC_CONFIG,
                calls={"serve": {"ghost": {}}},
                ensures={"always_closes": ("self._closed and n_callees('close') == 1", P11 + ["C16"])},
                raises={"BaseException": {"props": P11 + ["C16"], "state": ["self._closed", "n_callees('close') == 1"],
@@ -196,5 +202,5 @@ def register(S):
                           "local_trace": True,
                           "invariant": ["not self._recvlock.held", "isnil(self._send_queue.items)", "not self._sendlock.held",
                                         "%s is old(%s)" % (SOCK, SOCK), "not %s.failed" % SOCK,
-                                        "all_slots_ok(self._local_objects._dict) and cache_ok(self._proxy_cache._dict, self)",
+                                        "all_slots_ok(self._local_objects._dict) and cache_ok(self._proxy_cache._dict, self) and generic_cache_ok(module_global('rpyc.core.vinegar', '_generic_exceptions_cache'))",
                                         "implies(not self._closed, not isnone(self._local_root))"]}})
